@@ -271,3 +271,27 @@ proof fn lemma_erase_keeps_f2(t: &RawTableInner, t2: &RawTableInner, index: int,
         lemma_erase_keeps_reach(t, t2, index, c, lz, tz, i, hs[i]);
     }
 }
+
+// L5 (lookup decides membership).  Over find_inner's proved postcondition, F2 and a lawful Hash/Eq pair
+// (every bucket eq accepts holds an element stored under the probed hash): the answer is Some exactly
+// when some FULL bucket is accepted by eq -- a present key is always found, an absent key never.
+proof fn lemma_lookup_decides(t: &RawTableInner, h: u64, f: spec_fn(usize) -> bool, r: Option<usize>, hs: Map<int, u64>)
+    requires
+        t.shape(), t.mirrored(), t.f2(hs),
+        forall|i: int| 0 <= i < t.nb() && #[trigger] t.ctrl@[i] < 0x80u8 && f(i as usize) ==> hs[i] == h,
+        r matches Some(i) ==> i < t.nb() && t.ctrl@[i as int] < 0x80u8 && f(i),
+        r is None ==> exists|kk: nat| #[trigger] t.none_witness(h as usize as int, kk, spec_tag(h), f),
+    ensures
+        r is Some <==> exists|i: int| 0 <= i < t.nb() && #[trigger] t.ctrl@[i] < 0x80u8 && f(i as usize),
+{
+    if r is Some {
+        let i = r.unwrap() as int;
+        assert(0 <= i < t.nb() && t.ctrl@[i] < 0x80u8 && f(i as usize));
+    } else {
+        if exists|i: int| 0 <= i < t.nb() && #[trigger] t.ctrl@[i] < 0x80u8 && f(i as usize) {
+            let i = choose|i: int| 0 <= i < t.nb() && #[trigger] t.ctrl@[i] < 0x80u8 && f(i as usize);
+            let kk = choose|kk: nat| #[trigger] t.none_witness(h as usize as int, kk, spec_tag(h), f);
+            lemma_find_complete(t, i, h, kk, f);
+        }
+    }
+}
